@@ -250,7 +250,7 @@ def probe(cls, data: bytes) -> dict:
         out["out"] = "returned"
     elif isinstance(exc, StepBudgetExceeded):
         out["out"] = "budget"
-    elif type(exc) is BufferUnderflow:
+    elif isinstance(exc, BufferUnderflow):
         out["out"] = "underflow"
         out["serial"] = True
         out["mro"] = [c.__name__ for c in type(exc).__mro__]
